@@ -204,13 +204,6 @@ func vxSetupPipeline() (*Synchronizer, *vxPipeSource, int) {
 	vxPipeForked = forked
 	vxPipeForkAt = len(vxLocal) - forked
 	src.failAt = vx.Choice("source-fails-at-call", 6) - 1
-	s := &Synchronizer{
-		blockchain: new(blockchainT),
-		dataSource: src,
-		logger:     nopLogger(),
-		listener:   &SelectiveListener{},
-		newHeads:   feedBlocks(),
-		reorgFeed:  feedReorgs(),
-	}
+	s := New(new(blockchainT), src, nopLogger(), 0, false, nil)
 	return s, src, forked
 }
